@@ -357,7 +357,8 @@ package mocker
 //@     | && unbox(result0.defaultReturns, *AlwaysMatcher) != nil && unbox(result0.defaultReturns, *AlwaysMatcher).BaseMatcher != nil
 //@     | && len(unbox(result0.defaultReturns, *AlwaysMatcher).BaseMatcher.results) == 1
 //@     | && forall j int :: 0 <= j && j < len(defaultReturns) ==> arg.i2v_converted(defaultReturns[j], unbox(result0.defaultReturns, *AlwaysMatcher).BaseMatcher.results[0][j], rt_out(rt_of(typeof(funcDef)), j))
-//@   panics_only_if conversion_rejected: true
+//@   ensures count_mistakes_are_typed_errors: defaultReturns != nil && len(defaultReturns) < rt_numout(rt_of(typeof(funcDef))) ==> typeof(result1) == typeid(*erro.ReturnsNotMatch)
+//@   panics_only_if a_value_is_rejected_never_a_count_that_is_too_small: defaultReturns == nil || len(defaultReturns) >= rt_numout(rt_of(typeof(funcDef)))
 
 //@ func (m *baseMocker) whens
 //@   props C12
@@ -524,8 +525,8 @@ package mocker
 //@   props C13
 //@   requires type: impTyp != nil && rt_kind(impTyp) == reflect.Func
 //@   assigns nothing
-//@   ensures too_few_returns_rejected: returns != nil && len(returns) < rt_numout(impTyp) ==> result != nil
-//@   ensures too_few_args_rejected: args != nil && len(args) + ite(isMethod, int(1), int(0)) < rt_numin(impTyp) ==> result != nil
+//@   ensures too_few_returns_rejected: returns != nil && len(returns) < rt_numout(impTyp) ==> result != nil && typeof(result) == typeid(*erro.ReturnsNotMatch)
+//@   ensures too_few_args_rejected: args != nil && len(args) + ite(isMethod, int(1), int(0)) < rt_numin(impTyp) ==> result != nil && (returns == nil || len(returns) >= rt_numout(impTyp) ==> typeof(result) == typeid(*erro.ArgsNotMatch))
 //@   ensures well_formed_accepted: (returns == nil || len(returns) >= rt_numout(impTyp)) && (args == nil || len(args) + ite(isMethod, int(1), int(0)) >= rt_numin(impTyp)) ==> result == nil
 
 // ---- C02/C12: Reset cancels every mocker the builder has handed out ---------------------------------------------------------
